@@ -56,4 +56,71 @@ GenInverseWritten(outmask) == outmask \cap {AZI, DIST, REDLEN, SCALE, AREA}
 \* rhumb: outputs LATITUDE, LONGITUDE, AZIMUTH (inverse), DISTANCE (inverse), AREA
 RhumbDirectWritten(outmask) == outmask \cap {LAT, LON, AREA}
 RhumbInverseWritten(outmask) == outmask \cap {AZI, DIST, AREA}
+\* the bits that exist in Rhumb::mask / RhumbLine::mask
+RhumbBits == {LAT, LON, AZI, DIST, AREA, UNROLL}
+
+(***************************************************************************)
+(* Inline overloads ("overloaded versions ... which omit some of the        *)
+(* output parameters").  Within one family an overload is identified by the *)
+(* NUMBER of its output arguments; the table gives the quantities in its    *)
+(* argument list, read off the @param[out] lists / signatures of            *)
+(* Geodesic.hpp, GeodesicExact.hpp, GeodesicLine.hpp, GeodesicLineExact.hpp *)
+(* and Rhumb.hpp.  Every output argument of an overload is an output: it is *)
+(* set (for a line: if the line has the capability) to the value the        *)
+(* general routine returns for it.  M12 and M21 are two arguments for one   *)
+(* bit, and so are azi1 and azi2 of the inverse problem.                    *)
+(*   Direct / Position     : the distance s12 is the input, never an output *)
+(*   ArcDirect/ArcPosition : s12 is the fourth output                       *)
+(*   R* : Rhumb::Direct, Rhumb::Inverse, RhumbLine::Position                *)
+(***************************************************************************)
+OvSolverFamilies == {"Direct", "ArcDirect", "Inverse"}
+OvLineFamilies == {"Position", "ArcPosition"}
+OvRhumbFamilies == {"RDirect", "RInverse", "RPosition"}
+OvFamilies == OvSolverFamilies \cup OvLineFamilies \cup OvRhumbFamilies
+OvArities(fam) ==
+  CASE fam \in {"Direct", "Position"} -> 2..7
+    [] fam \in {"ArcDirect", "ArcPosition"} -> 2..8
+    [] fam = "Inverse" -> 1..7
+    [] fam \in OvRhumbFamilies -> 2..3
+OverloadOut(fam, n) ==
+  CASE fam \in {"Direct", "Position"} ->
+         (CASE n = 2 -> {LAT, LON}
+            [] n = 3 -> {LAT, LON, AZI}
+            [] n = 4 -> {LAT, LON, AZI, REDLEN}
+            [] n = 5 -> {LAT, LON, AZI, SCALE}
+            [] n = 6 -> {LAT, LON, AZI, REDLEN, SCALE}
+            [] n = 7 -> {LAT, LON, AZI, REDLEN, SCALE, AREA})
+    [] fam \in {"ArcDirect", "ArcPosition"} ->
+         (CASE n = 2 -> {LAT, LON}
+            [] n = 3 -> {LAT, LON, AZI}
+            [] n = 4 -> {LAT, LON, AZI, DIST}
+            [] n = 5 -> {LAT, LON, AZI, DIST, REDLEN}
+            [] n = 6 -> {LAT, LON, AZI, DIST, SCALE}
+            [] n = 7 -> {LAT, LON, AZI, DIST, REDLEN, SCALE}
+            [] n = 8 -> {LAT, LON, AZI, DIST, REDLEN, SCALE, AREA})
+    [] fam = "Inverse" ->
+         (CASE n = 1 -> {DIST}
+            [] n = 2 -> {AZI}
+            [] n = 3 -> {DIST, AZI}
+            [] n = 4 -> {DIST, AZI, REDLEN}
+            [] n = 5 -> {DIST, AZI, SCALE}
+            [] n = 6 -> {DIST, AZI, REDLEN, SCALE}
+            [] n = 7 -> {DIST, AZI, REDLEN, SCALE, AREA})
+    [] fam \in {"RDirect", "RPosition"} -> (CASE n = 2 -> {LAT, LON} [] n = 3 -> {LAT, LON, AREA})
+    [] fam = "RInverse" -> (CASE n = 2 -> {DIST, AZI} [] n = 3 -> {DIST, AZI, AREA})
+\* number of output arguments that carry the quantities S
+ArgCount(fam, S) == Cardinality(S) + (IF SCALE \in S THEN 1 ELSE 0) + (IF fam = "Inverse" /\ AZI \in S THEN 1 ELSE 0)
+OvArcmode(fam) == fam \in {"ArcDirect", "ArcPosition"}
+\* Direct, Inverse and Position return the arc length a12; the others return nothing
+OvReturns(fam) == fam \in {"Direct", "Inverse", "Position"}
+\* everything the general routine behind the family can write
+OvGeneral(fam) ==
+  CASE fam \in {"Direct", "ArcDirect", "Position", "ArcPosition"} -> GenDirectWritten(Bits)
+    [] fam = "Inverse" -> GenInverseWritten(Bits)
+    [] fam \in {"RDirect", "RPosition"} -> RhumbDirectWritten(Bits)
+    [] fam = "RInverse" -> RhumbInverseWritten(Bits)
+\* <<returns a number, written set>> of overload (fam, n); for the line families on a line made by Line(caps)
+OverloadWritten(fam, n, caps) ==
+  IF fam \in OvLineFamilies THEN Position(CapsOf("line", caps), OvArcmode(fam), OverloadOut(fam, n))
+  ELSE <<TRUE, OverloadOut(fam, n)>>
 =============================================================================
